@@ -6,7 +6,7 @@ From Coq Require Import String ZArith QArith Bool Arith Lia Permutation List.
 From GT Require Import Base.UTree Model.Reroot Model.Prune Model.Collapse Model.NNI Model.History Model.Heap Model.HeapEdit Model.HeapSpec
      Proofs.Enum Proofs.HeapBase Proofs.HeapRep Proofs.HeapGood Proofs.HeapGoodRep Proofs.HeapReroot Proofs.HeapUnroot
      Proofs.HeapNocheck Proofs.HeapGraft Proofs.HeapGraftSq Proofs.HeapCollapseTree Proofs.HeapPaths Proofs.HeapCollapseSq
-     Proofs.HeapRerootL Proofs.HeapNNIMain Proofs.HeapNNISq.
+     Proofs.HeapRerootL Proofs.HeapNNIMain Proofs.HeapNNISq Proofs.HeapPruneTree Proofs.HeapPruneSq Proofs.HeapRotateSq.
 Import ListNotations.
 Local Close Scope Q_scope.
 
@@ -36,7 +36,7 @@ Qed.
 Theorem run_hop_square o h t h' : Good h -> abs h = Some t -> run_hop_heap o h = HOk h' ->
   Good h' /\ exists t', run_hop_tree o t = Ok t' /\ abs h' = Some t'.
 Proof.
-  intros G Ha E. destruct o as [i|i| |name k|rr rt k|r]; cbn [run_hop_heap run_hop_tree] in *.
+  intros G Ha E. destruct o as [i|i| |name k|rr rt k|r|nm|cs]; cbn [run_hop_heap run_hop_tree] in *.
   - destruct (tree_nodes h) as [ns| |] eqn:En; cbn [hbind] in E; try discriminate.
     destruct (nth_error ns i) as [n|] eqn:Ei; [|discriminate].
     pose proof (reroot_heap_refines h t ns i n G Ha En Ei) as H. rewrite E in H.
@@ -74,6 +74,16 @@ Proof.
     assert (Hin : In (n2, ec) (slots_of hn1)) by (eapply nth_error_In; apply nth_combine; eassumption).
     destruct (nni_apply_square h lt r n1 n2 q hn1 hn2 ec edc sub R H1 H2 Hin Ec El D1 D2 Eq Hp Hl Ek Erj) as (h2 & lt' & Ev & R' & Hap).
     rewrite Ev in E. injection E as <-. split; [eapply Rep_Good; exact R'|]. exists (erase lt'). rewrite Hap. split; [reflexivity|apply Rep_abs; exact R'].
+  - destruct (Good_Rep h G) as [lt R]. pose proof (Rep_abs _ _ R) as Ha'. rewrite Ha in Ha'. injection Ha' as ->.
+    rewrite Ha in E. destruct (find_tip nm (erase lt)) as [P|] eqn:Ef; [|discriminate].
+    destruct (walk h None (hroot h) P) as [x| |] eqn:Ew; cbn [hbind] in E; try discriminate.
+    pose proof (rep_shape _ _ R) as Sh. rewrite (rep_root _ _ R) in Ew.
+    destruct (walk_lnode_at h P lt None x Sh Ew) as [sub [Hp Hl]].
+    pose proof (remove_tip_square nm h (erase lt) P lt sub G Ha (Rep_dump _ _ R) Ef Hp) as Sq. rewrite Hl in Sq.
+    destruct (remove_tip nm (erase lt)) as [t'|m]; [|congruence].
+    destruct Sq as (h2 & Ev & G2 & A2). rewrite Ev in E. injection E as <-. split; [exact G2|]. exists t'. split; [reflexivity|exact A2].
+  - destruct (rotate_internal_nodes_square h t cs G Ha) as (h2 & Ev & G2 & A2). rewrite Ev in E. injection E as <-.
+    split; [exact G2|]. eexists. split; [reflexivity|exact A2].
 Qed.
 
 (** the pointer-level half of C03 for these operations, as one statement *)
@@ -91,4 +101,6 @@ Qed.
 Lemma run_hop_tree_history_reroot i t : run_hop_tree (HReroot i) t = run_op (OReroot i) t.
 Proof. reflexivity. Qed.
 Lemma run_hop_tree_history_unroot t : run_hop_tree HUnroot t = run_op OUnroot t.
+Proof. reflexivity. Qed.
+Lemma run_hop_tree_history_rotate cs t : run_hop_tree (HRotate cs) t = run_op (ORotate cs) t.
 Proof. reflexivity. Qed.
